@@ -721,10 +721,6 @@ func (ts *Service) handleCreateTask(w http.ResponseWriter, r *http.Request) {
 			task.Type = client.BatchTask
 		}
 		task.TICKscript = template.TICKscript
-		if err := ts.templates.AssociateTask(task.TemplateID, newTask.ID); err != nil {
-			httpd.HttpError(w, fmt.Sprintf("failed to associate task with template: %s", err), true, http.StatusBadRequest)
-			return
-		}
 	} else {
 		// Set task type
 		switch task.Type {
@@ -827,6 +823,12 @@ func (ts *Service) handleCreateTask(w http.ResponseWriter, r *http.Request) {
 		httpd.HttpError(w, err.Error(), true, http.StatusInternalServerError)
 		return
 	}
+	if newTask.TemplateID != "" {
+		if err := ts.templates.AssociateTask(newTask.TemplateID, newTask.ID); err != nil {
+			httpd.HttpError(w, fmt.Sprintf("failed to associate task with template: %s", err), true, http.StatusInternalServerError)
+			return
+		}
+	}
 
 	// Count new task
 	vars.NumTasksVar.Add(1)
@@ -887,18 +889,6 @@ func (ts *Service) handleUpdateTask(w http.ResponseWriter, r *http.Request) {
 		if err != nil {
 			httpd.HttpError(w, fmt.Sprintf("unknown template %s: err: %s", task.TemplateID, err), true, http.StatusBadRequest)
 			return
-		}
-		if original.ID != updated.ID || original.TemplateID != templateID {
-			if original.TemplateID != "" {
-				if err := ts.templates.DisassociateTask(original.TemplateID, original.ID); err != nil {
-					httpd.HttpError(w, fmt.Sprintf("failed to disassociate task with template: %s", err), true, http.StatusBadRequest)
-					return
-				}
-			}
-			if err := ts.templates.AssociateTask(templateID, updated.ID); err != nil {
-				httpd.HttpError(w, fmt.Sprintf("failed to associate task with template: %s", err), true, http.StatusBadRequest)
-				return
-			}
 		}
 		updated.Type = template.Type
 		updated.TICKscript = template.TICKscript
@@ -1021,6 +1011,10 @@ func (ts *Service) handleUpdateTask(w http.ResponseWriter, r *http.Request) {
 				keyvalue.KV("newID", updated.ID),
 			)
 		}
+		if err := ts.updateTaskAssociation(original, updated); err != nil {
+			httpd.HttpError(w, err.Error(), true, http.StatusInternalServerError)
+			return
+		}
 		if original.Status == Enabled && updated.Status == Enabled {
 			// Stop task and start it under new name
 			ts.stopTask(original.ID)
@@ -1032,6 +1026,10 @@ func (ts *Service) handleUpdateTask(w http.ResponseWriter, r *http.Request) {
 	} else {
 		if err := ts.tasks.Replace(updated); err != nil {
 			httpd.HttpError(w, fmt.Sprintf("failed to replace task definition: %s", err.Error()), true, http.StatusInternalServerError)
+			return
+		}
+		if err := ts.updateTaskAssociation(original, updated); err != nil {
+			httpd.HttpError(w, err.Error(), true, http.StatusInternalServerError)
 			return
 		}
 	}
@@ -1145,6 +1143,24 @@ func (ts *Service) convertTask(t Task, scriptFormat, dotView string, tm *kapacit
 		LastEnabled:    t.LastEnabled,
 		Error:          errMsg,
 	}, nil
+}
+
+// updateTaskAssociation moves the template association of a task once its new definition has been saved.
+func (ts *Service) updateTaskAssociation(original, updated Task) error {
+	if original.ID == updated.ID && original.TemplateID == updated.TemplateID {
+		return nil
+	}
+	if original.TemplateID != "" {
+		if err := ts.templates.DisassociateTask(original.TemplateID, original.ID); err != nil {
+			return fmt.Errorf("failed to disassociate task with template: %s", err)
+		}
+	}
+	if updated.TemplateID != "" {
+		if err := ts.templates.AssociateTask(updated.TemplateID, updated.ID); err != nil {
+			return fmt.Errorf("failed to associate task with template: %s", err)
+		}
+	}
+	return nil
 }
 
 func (ts *Service) convertToServiceVar(cvar client.Var) (Var, error) {
